@@ -155,6 +155,18 @@ def judge(chk, c, evs):
             res[e['label']] = e
     g = lib['precision'] / lib['unit']
     rnd = random.Random(m['seed'] + 4)
+    # outlines made before a magnification (get_polygons, the hand flattening) and after it (paths returned by get_flexpaths /
+    # get_robustpaths, flattened cells) both keep the path tolerance in their own frame: they may differ by the tolerance times the largest
+    # composite magnification of the hierarchy
+    mm = {}
+
+    def maxmag(ci):
+        if ci not in mm:
+            mm[ci] = 1.0
+            mm[ci] = max([1.0] + [abs(rf['mag']) * maxmag(rf['target']) for rf in lib['cells'][ci]['refs'] if rf['kind'] == 'cell'])
+        return mm[ci]
+    ptol = max([0.1 * g] + [p_['tol'] for cell_ in lib['cells'] for k_ in ('fpaths', 'rpaths') for p_ in cell_[k_]])
+    rguard = max(60 * 1e-3 * g * 10, 1.5 * ptol * maxmag(top)) + 3 * g
 
     def only_paths(kind_key, kind):
         def f(cell, ci):
@@ -183,7 +195,7 @@ def judge(chk, c, evs):
                 for tag in set(t_ for t_, _ in exp):
                     P = [pts for t_, pts in exp if t_ == tag]
                     Q = [pts for t_, pts in got if t_ == tag]
-                    if geom.region_diff(P, Q, rnd, guard=60 * 1e-3 * g * 10 + 3 * g, samples=120):
+                    if geom.region_diff(P, Q, rnd, guard=rguard, samples=120):
                         same = False
                         break
             if not same:
@@ -222,7 +234,7 @@ def judge(chk, c, evs):
                 for tag in set(t_ for t_, _ in exp):
                     P = [pts for t_, pts in exp if t_ == tag]
                     Q = [pts for t_, pts in got if t_ == tag]
-                    w = geom.region_diff(P, Q, rnd, guard=60 * 1e-3 * g * 10 + 3 * g, samples=120)
+                    w = geom.region_diff(P, Q, rnd, guard=rguard, samples=120)
                     if w:
                         chk.violation('C06/%s/%s' % (op, 'attached-repetitions' if not ap else 'region'),
                                       '%s(apply_repetitions=%d): paths of tag %s cover (%g,%g) %d times, the hand flattening %d times' % (
@@ -261,7 +273,7 @@ def judge(chk, c, evs):
                 for tag in set(t_ for t_, _ in exp):
                     P = [pts for t_, pts in exp if t_ == tag]
                     Q = [pts for t_, pts in got if t_ == tag]
-                    if geom.region_diff(P, Q, rnd, guard=60 * 1e-3 * g * 10 + 3 * g, samples=120):
+                    if geom.region_diff(P, Q, rnd, guard=rguard, samples=120):
                         bad = True
                         break
             if bad:
